@@ -226,6 +226,24 @@ func (this *DefaultInputBitStream) readFromInputStream(count int) (int, error) {
 
 	this.read += (int64(this.position << 3))
 	size, err := this.is.Read(this.buffer[0:count])
+
+	// A source may deliver fewer bytes than requested (pipe, socket, ...). The
+	// bitstream consumes 64-bit words and takes a partial word for the end of the
+	// stream: top up until the buffer holds a whole number of words, unless the
+	// source is exhausted or fails (the error is deferred below).
+	for err == nil && size > 0 && size&7 != 0 && size < count {
+		var n int
+		n, err = this.is.Read(this.buffer[size:count])
+
+		if n <= 0 && err == nil {
+			break
+		}
+
+		if n > 0 {
+			size += n
+		}
+	}
+
 	this.position = 0
 
 	if size <= 0 {
